@@ -179,7 +179,10 @@ class SimOps:
         ops = []
         interface_dict = dict((n, i) for i, n in enumerate(circuit.s_nodes))
         for n in circuit.topological_order():
-            if n in interface_dict:
+            # a port fork that is driven from inside the circuit (an output that is also read internally)
+            # passes on the driven value like any other fork
+            driven_fork = n.kind == '__fork__' and len(n.ins) > 0 and n.ins[0] is not None
+            if n in interface_dict and not driven_fork:
                 inp_idx = self.ppi_offset + interface_dict[n]
                 if len(n.outs) > 0 and n.outs[0] is not None:  # first output of a PI/PPI
                     ops.append((BUF1, n.outs[0].index, inp_idx, self.zero_idx, self.zero_idx, self.zero_idx, *a_ctrl[n.outs[0]]))
